@@ -178,6 +178,127 @@ def make_tensor_view(rng, how, grad):
     raise KeyError(how)
 
 
+LAYOUTS_ARR = ["transposed", "stride2", "reversed", "readonly", "broadcast", "view_of_torch", "diagonal", "newaxis", "swapaxes3d", "rows_stride3", "readonly_F"]
+LAYOUTS_TENSOR = ["expanded", "permuted", "t", "from_numpy", "stride2", "expanded_grad", "flip", "channels_last", "narrow_col", "unfold"]
+SIZE_KINDS = ["obj_wide1200", "list_items1500", "dict_keys1200", "list_deep70", "obj_deep55", "dict_deep70", "tuple_items1100_arrays"]
+
+
+def make_layout_array(rng, which):
+    base = (rng.normal(size=(4, 6)) * 10).round(3)
+    base[0, 0] = 7.25
+    if which == "transposed":
+        return base.T
+    if which == "stride2":
+        return (np.arange(20) + int(rng.integers(1, 9)))[::2]
+    if which == "reversed":
+        return (np.arange(7, dtype=np.int16) + int(rng.integers(1, 9)))[::-1]
+    if which == "readonly":
+        a = base.copy()
+        a.flags.writeable = False
+        return a
+    if which == "readonly_F":
+        a = np.asfortranarray(base.astype(np.float32))
+        a.flags.writeable = False
+        return a
+    if which == "broadcast":
+        return np.broadcast_to(np.arange(3.0) + float(rng.integers(1, 9)), (4, 3))  # stride 0, read-only
+    if which == "view_of_torch":
+        return torch.tensor(base.tolist(), dtype=torch.float32)[1:, ::2].numpy()  # NumPy view of torch memory
+    if which == "diagonal":
+        return np.diagonal(base)
+    if which == "newaxis":
+        return base[:, None, ::2]
+    if which == "swapaxes3d":
+        return (np.arange(24).reshape(2, 3, 4) + int(rng.integers(1, 9))).swapaxes(0, 2)
+    if which == "rows_stride3":
+        return (rng.integers(0, 255, size=(9, 5)).astype(np.uint8))[::3]
+    raise KeyError(which)
+
+
+def make_layout_tensor(rng, which):
+    base = torch.tensor((rng.normal(size=(2, 3, 4)) * 3).tolist(), dtype=torch.float32)
+    if which == "expanded":
+        return (torch.arange(3.0) + float(rng.integers(1, 9))).expand(4, 3)  # stride 0
+    if which == "permuted":
+        return base.permute(2, 0, 1)
+    if which == "t":
+        return base[0].t()
+    if which == "from_numpy":
+        return torch.from_numpy(np.arange(5.0) + float(rng.integers(1, 9)))  # shares memory with a NumPy array
+    if which == "stride2":
+        return (torch.arange(10.0) + float(rng.integers(1, 9)))[::2]
+    if which == "expanded_grad":
+        return torch.tensor([[1.5, 2.5, float(rng.integers(1, 9))]], requires_grad=True).expand(2, 3)
+    if which == "flip":
+        return base[0, 0].flip(0)
+    if which == "channels_last":
+        return torch.tensor(rng.normal(size=(1, 2, 3, 3)).tolist(), dtype=torch.float32).to(memory_format=torch.channels_last)
+    if which == "narrow_col":
+        return base[1].narrow(1, 1, 2)
+    if which == "unfold":
+        return (torch.arange(8.0) + float(rng.integers(1, 9))).unfold(0, 3, 2)  # overlapping windows
+    raise KeyError(which)
+
+
+def make_size_case(rng, which):
+    sg = _sg()
+    k0 = int(rng.integers(1, 9))
+    if which == "obj_wide1200":
+        w = sg.Node()
+        for i in range(1200):
+            setattr(w, "a%04d" % i, [i + k0, float(i) + 0.5, "s%d" % i, None][i % 4])
+        for i in range(30):
+            setattr(w, "arr%02d" % i, np.full((2,), i + k0))
+        return w
+    if which == "list_items1500":
+        return [("s%d" % i if i % 3 else i + k0) for i in range(1500)]
+    if which == "tuple_items1100_arrays":
+        return tuple((np.full((2,), i, dtype=np.int16) if i % 50 == 0 else ("t%d" % i if i % 2 else float(i + k0))) for i in range(1100))
+    if which == "dict_keys1200":
+        return {"k%d" % i: (i + k0 if i % 2 else "v%d" % i) for i in range(1200)}
+    if which == "list_deep70":
+        v = ["core", k0]
+        for i in range(70):
+            v = [v, i] if i % 2 else (v, "t")
+        return v
+    if which == "dict_deep70":
+        d = {"leaf": k0}
+        for i in range(70):
+            d = {"k": d, "i": i}
+        return d
+    if which == "obj_deep55":
+        o = sg.Leaf()
+        o.n = k0
+        for i in range(55):
+            p = sg.Leaf() if i % 2 else sg.Other()
+            p.child = o
+            p.n = i + 1
+            p.items = [i, "x"]
+            o = p
+        return o
+    raise KeyError(which)
+
+
+def make_shared(rng):
+    sg = _sg()
+    arr = make_array_shape(rng, "float32", (5,))
+    leaf = make_leaf(rng)
+    lst = [1, "a", int(rng.integers(9))]
+    t = make_tensor(rng, "float32")
+    s = sg.Node()
+    s.a, s.b = arr, arr
+    s.l1, s.l2 = lst, lst
+    s.o1, s.o2 = leaf, leaf
+    s.t1, s.t2 = t, t
+    s.c = [leaf, leaf, arr, arr, lst, lst, t]
+    s.d = {"x": leaf, "y": leaf, "z": {"again": leaf, "arr": arr}}
+    s.tup = (lst, lst, (lst,))
+    s.holder = sg.Other()
+    s.holder.same_leaf = leaf
+    s.holder.same_arr = arr
+    return s
+
+
 def make_big_array(rng, which):
     """arrays above 4 MiB with non-zero contents everywhere (a dropped or zero-filled tail must be visible)."""
     if which == "f32_1025":
@@ -332,6 +453,16 @@ def _kinds():
     for sh in ("e3", "1d", "3d", "4d", "nc", "F"):
         for dt in ("float64", "int16", "complex64"):
             add("arr:%s:%s" % (dt, sh), (lambda d, s: (lambda r: make_array(r, d, s)))(dt, sh))
+    # memory layout / ownership of arrays and tensors: the stored value is the logical content, whatever the strides
+    for w in LAYOUTS_ARR:
+        add("arr:layout:" + w, (lambda ww: (lambda r: make_layout_array(r, ww)))(w))
+    for w in LAYOUTS_TENSOR:
+        add("tensor:layout:" + w, (lambda ww: (lambda r: make_layout_tensor(r, ww)))(w))
+    # size thresholds: > 1000 attributes / items / keys, > 50 levels of nesting (a few placements only)
+    for w in SIZE_KINDS:
+        add("size:" + w, (lambda ww: (lambda r: make_size_case(r, ww)))(w), "B")
+    # one sub-object reachable by several paths (aliasing itself is not compared, the values are)
+    add("obj:shared_refs", lambda r: make_shared(r))
     for w in ("f32_1025", "f64_600001", "c128_4d", "i64_F", "u8_odd"):
         add("arr:big:" + w, (lambda ww: (lambda r: make_big_array(r, ww)))(w), "B")
     for dt in TENSOR_DTYPES:
